@@ -49,6 +49,10 @@ TRUSTED_BASE = [
     "with a thread switch between any two atoms).  NOT modelled: the free-threaded build (no GIL), and what a reader sees that scans "
     "a dictionary while another thread inserts (reads have no effect in the model; the oracle explores such scans, see the known "
     "finding); the property-graph layer's unlocked structural edits (add_link, delete_node through get_graph())",
+    "store configuration: a store singleton is created without or with a logger (first importer of the process); branches on "
+    "`self.log` are ordinary symbolic branches of the generated skeletons (both arms are paths: methods_balanced covers them), and every "
+    "concrete case is run in both configurations; which arms of the `self.log`-conditioned branches were executed is recorded in the "
+    "evidence (`log-branch:*`); calls into the logging framework are not traced (no preemption inside logging)",
     "harness/lib_sched.py: sys.settrace line scheduler (thread switches between source lines of the store classes and between the "
     "elements of an unlocked scan of a node dictionary), instrumented lock substituted for storage.lock, probes substituted for the "
     "store's graphs / start_id / graph_node_ids, folding of the observed atoms of one line into micro-instructions (Recorder.fold)",
@@ -56,7 +60,9 @@ TRUSTED_BASE = [
     "operation's graph index and node count.  The lock theorems are proved for every instantiation (balanced_inst); the discipline "
     "monitor is proved on the symbolic skeletons and checked (`accepts`) on every observed concrete program",
 ]
-ASSUMPTIONS = ["imported graphs are networkx graphs whose node/edge views are well-formed",
+ASSUMPTIONS = ["the logger a store singleton is created with is a logging.Logger (or None); what its handlers do is outside the model "
+               "(the harness uses a handler that swallows the records)",
+               "imported graphs are networkx graphs whose node/edge views are well-formed",
                "no KeyboardInterrupt / MemoryError / SystemExit inside a store method",
                "CPython with the GIL"]
 RULE = ("every case twice: store singleton created without and with a logger; sequential: histories of 4-12 store calls on 1-3 graph ids incl. failing imports, calls with an unhashable graph id, duplicate "
@@ -476,7 +482,7 @@ def correspondence(ctx, res):
     reqs, impl, cases = [], [], []
     sink = Result()      # property violations are the oracle's business, not the correspondence's
     # (i) sequential histories: every call's observed trace is a path of its skeleton; lock model = real lock
-    seq_cases = [c for c in corpus_cases() if c["kind"] == "seq"] + gen_seq(rng, ctx.scale(120, 1500))
+    seq_cases = [c for c in corpus_cases() if c["kind"] == "seq"] + gen_seq(rng, ctx.scale(120, 750))
     for case in both_configs(seq_cases):
         res.count("store-created-%s-logger" % ("with" if case["logger"] else "without"))
         results, rec, snap, views = eval_seq(case, sink)
@@ -496,7 +502,7 @@ def correspondence(ctx, res):
     for fl in ("shared", "disjoint"):
         for setup, threads in THR_CORNERS:
             thr_cases.append({"kind": "thr", "flavour": fl, "setup": setup, "threads": threads, "decisions": []})
-    nrand = ctx.scale(260, 4000)
+    nrand = ctx.scale(260, 2000)
     for i in range(nrand):
         setup, threads = gen_thr_case(rng)
         dec = [rng.randrange(len(threads)) for _ in range(rng.randrange(20, 200))]
@@ -520,8 +526,8 @@ def correspondence(ctx, res):
     budget = ctx.scale(150, 2500)
     for fl, lg in (("shared", False), ("disjoint", True), ("disjoint", False), ("shared", True)):
         for setup, threads in THR_CORNERS[:ctx.scale(2, 5)] + [DUP_CORNER]:
-            if lg and not ctx.thorough and (setup, threads) != DUP_CORNER:
-                continue                    # quick tier: with a logger only the corner that reaches a logger-conditioned branch
+            if lg != ((setup, threads) == DUP_CORNER):
+                continue                    # exhaustive exploration with a logger: the corner that reaches a logger-conditioned branch
             def visit(r, fl=fl, setup=setup, threads=threads, lg=lg):
                 r["flavour"] = fl
                 COVER[lg] |= r["rec"].lines
@@ -576,18 +582,18 @@ def oracle(ctx, res, scale=1):
     for case in both_configs(corpus_cases()):
         (eval_seq if case["kind"] == "seq" else eval_thr)(case, res)
         res.count("corpus")
-    for case in both_configs(gen_seq(rng, ctx.scale(200, 2500) * scale)):
+    for case in both_configs(gen_seq(rng, ctx.scale(200, 1250) * scale)):
         results, rec, snap, views = eval_seq(case, res)
         if any(r[0] == "err" for r in results):
             res.nontrivial.add(canon(case))
         res.count("seq:%s:%s" % (case["flavour"], "logger" if case["logger"] else "no-logger"))
     for fl in ("shared", "disjoint"):
         for setup, threads in THR_CORNERS + [DUP_CORNER]:
-            for s in range(ctx.scale(5, 40)):
+            for s in range(ctx.scale(5, 20)):
                 dec = [rng.randrange(len(threads)) for _ in range(150)]
                 for case in both_configs([{"kind": "thr", "flavour": fl, "setup": setup, "threads": threads, "decisions": dec}]):
                     eval_thr(case, res)
-    for i in range(ctx.scale(300, 4000) * scale):
+    for i in range(ctx.scale(300, 2000) * scale):
         setup, threads = gen_thr_case(rng)
         dec = [rng.randrange(len(threads)) for _ in range(rng.randrange(20, 200))]
         base = {"kind": "thr", "flavour": rng.choice(("shared", "disjoint")), "setup": setup, "threads": threads, "decisions": dec}
@@ -600,8 +606,8 @@ def oracle(ctx, res, scale=1):
     bound = ctx.scale(1, 2)
     for fl, lg in (("shared", False), ("disjoint", False), ("disjoint", True), ("shared", True)):
         for setup, threads in THR_CORNERS[:ctx.scale(3, 6)] + [DUP_CORNER]:
-            if lg and not ctx.thorough and (setup, threads) != DUP_CORNER:
-                continue                    # quick tier: with a logger only the corner that reaches a logger-conditioned branch
+            if lg != ((setup, threads) == DUP_CORNER):
+                continue                    # exhaustive exploration with a logger: the corner that reaches a logger-conditioned branch
             # explore needs the property evaluated per run: re-run each explored schedule through eval_thr
             decisions = []
             L.explore(rep(), fl, threads, bound, ctx.scale(120, 2500), setup, lambda r: decisions.append([d[1] for d in r["log"]]),
